@@ -187,17 +187,20 @@ def withdrawUnbonded (b : Bank) (e : Unb) : Res Bank :=
   b1.send moduleAcc e.rcpt feeDenom e.amount
 
 /-- IterateCompletedUnbondings + GarbageCollectUnbonded over the index order: stop at the first entry of a later
-    second; (fixed) skip entries of the current second that complete after `now`; a failing payment aborts the
-    end-blocker with an error. -/
+    second; (fixed) skip entries of the current second that complete after `now`; (fixed) a payment that cannot be made
+    runs on a branch of the state that is dropped: it is logged, its record stays and it is tried again in a later
+    block — the end-blocker itself never fails. -/
 def gc (now : Int) : List Unb → St → Res St
   | [], s => .ok s
   | e :: rest, s =>
     if unixSec e.completion > unixSec now then .ok s
     else if e.completion > now then gc now rest s
     else
-      (withdrawUnbonded s.bank e).bind fun b =>
-      gc now rest { s with bank := b, unb := s.unb.filter (fun x => x.id ≠ e.id),
-                           paidOut := fun i => if i = e.id then s.paidOut i + e.amount else s.paidOut i }
+      match withdrawUnbonded s.bank e with
+      | .ok b =>
+        gc now rest { s with bank := b, unb := s.unb.filter (fun x => x.id ≠ e.id),
+                             paidOut := fun i => if i = e.id then s.paidOut i + e.amount else s.paidOut i }
+      | _ => gc now rest s
 
 /-- EndBlocker. `matured`: bond tokens the staking end-blocker (which runs earlier) released to the module account. -/
 def endBlock (s : St) (now : Int) (matured : Int) (rewards : List (Val × Coins)) : Res St :=
@@ -217,7 +220,7 @@ structure Out where
   cls : String
   paid : Coins := []
 
-/-- a failing message changes nothing (transaction atomicity); a failing end-blocker halts the chain -/
+/-- a failing message changes nothing (transaction atomicity); the end-blocker cannot fail any more (`C10.block_never_halts`): the "halt" branch below is dead -/
 def step (s : St) : Op → St × Out
   | .delegate u v a d x => match delegate s u v a d x with
     | .ok s' => (s', ⟨"ok", []⟩)
